@@ -161,6 +161,23 @@ CLAIMED = {
              "same results' follows only under that assumption. register_allocator is treated as configuration "
              "performed before threads start.",
     ),
+    "C15": dict(
+        category="other",
+        design_ref="DESIGN.md section 3 / C15",
+        technique="static analysis: bit-provenance abstract interpretation (E-BITS) of every scalar setter composed with "
+                  "its getter over the clang AST with record layouts; callees (Endian::*, small_uint, address classes) "
+                  "are inlined from their own AST; nothing is executed",
+        text="Decides the accessor clauses for all 272 scalar header-field pairs, for every value and every prior object "
+             "state (little-endian arm): (R1) getter(setter(o,v)) == v bit for bit; (R2) no value bit is dropped unless "
+             "the parameter type or an explicit range check excludes it, and small_uint<n> really rejects values above "
+             "2^n-1 (R0); (R3) the setter changes only the storage of its own field (plus two tabled derived members) "
+             "and every getter reading other bits keeps its value. Option-backed accessors (34) and non-scalar "
+             "parameters (100) are outside this property's scalar-field quantifier and are counted in the evidence.",
+        note="NOT decided: that bit positions are those the protocol specification assigns; the serialisation-diff "
+             "clause beyond 'only the field's own members change'; the big-endian #if arms. Trusted: clang's record "
+             "layout for x86-64, tools/tinsfacts.cc, vlib/bitprov.py's operator semantics (selftest battery: 17 "
+             "mutants / 6 benign variants).",
+    ),
     "C16": dict(
         category="other",
         design_ref="DESIGN.md section 3 / C16",
